@@ -742,7 +742,7 @@ impl convert::TryFrom<XmlNode> for Rc<info::XmlItem> {
             XmlNode::Namespace(v) => Rc::new(v.namespace.into()),
             XmlNode::Notation(v) => Rc::new(v.notation.into()),
             XmlNode::PI(v) => Rc::new(v.pi.into()),
-            XmlNode::ExpandedText(_) => unimplemented!("multi text node."),
+            XmlNode::ExpandedText(_) => return Err(error::DomException::NotSupportErr)?,
             XmlNode::Text(v) => Rc::new(v.data.into()),
         };
         Ok(v)
